@@ -64,14 +64,14 @@ func errorReturned(fn *ssa.Function, ev ssa.Value) (bool, string) {
 	}
 	// returned directly (return f())
 	for _, r := range *ev.Referrers() {
-		if ret, ok := r.(*ssa.Return); ok {
+		if ret, ok := an.AsReturn(r); ok {
 			_ = ret
 			return true, "returned directly"
 		}
 		if call, ok := r.(*ssa.Call); ok && (strings.HasSuffix(an.CalleeName(call.Common()), "errors.Wrap") || strings.HasSuffix(an.CalleeName(call.Common()), "errors.Wrapf")) {
 			// errors.Wrap(err, …) returns nil for a nil err: fine when its result is returned
 			for _, r2 := range *call.Referrers() {
-				if _, ok := r2.(*ssa.Return); ok {
+				if _, ok := an.AsReturn(r2); ok {
 					return true, "returned through errors.Wrap"
 				}
 			}
@@ -90,7 +90,7 @@ func errorReturned(fn *ssa.Function, ev ssa.Value) (bool, string) {
 					continue
 				}
 				for _, in := range b.Instrs {
-					if ret, ok := in.(*ssa.Return); ok && len(ret.Results) > 0 {
+					if ret, ok := an.AsReturn(in); ok && len(ret.Results) > 0 {
 						n++
 						if an.IsNilConst(an.RetVal(ret, len(ret.Results)-1)) {
 							okAll = false
@@ -131,7 +131,7 @@ func errorReturned(fn *ssa.Function, ev ssa.Value) (bool, string) {
 			continue
 		}
 		for _, in := range b.Instrs {
-			if ret, ok := in.(*ssa.Return); ok && len(ret.Results) > 0 && an.IsNilConst(an.RetVal(ret, len(ret.Results)-1)) {
+			if ret, ok := an.AsReturn(in); ok && len(ret.Results) > 0 && an.IsNilConst(an.RetVal(ret, len(ret.Results)-1)) {
 				// reachable nil-error return with err != nil: acceptable only behind a further classification call on err (errs.IsNotFound)
 				return false, "with err != nil a return with a nil error stays reachable"
 			}
@@ -190,7 +190,7 @@ func c12(c *Ctx) {
 				}
 				all := true
 				for _, rb := range fn.Blocks {
-					ret, isRet := rb.Instrs[len(rb.Instrs)-1].(*ssa.Return)
+					ret, isRet := an.AsReturn(rb.Instrs[len(rb.Instrs)-1])
 					if !isRet {
 						continue
 					}
@@ -340,7 +340,7 @@ func c12(c *Ctx) {
 			}
 			if k, isK := an.ConstInt(an.Unconv(cd.Y)); isK && k == 2 { // syscall.ENOENT
 				for _, in := range cd.EdgeWhen(true).To().Instrs {
-					if ret, okr := in.(*ssa.Return); okr && len(ret.Results) == 2 && strings.Contains(tr.OriginString(an.RetVal(ret, 1)), "errs.NotFound") {
+					if ret, okr := an.AsReturn(in); okr && len(ret.Results) == 2 && strings.Contains(tr.OriginString(an.RetVal(ret, 1)), "errs.NotFound") {
 						ok = true
 					}
 				}
@@ -383,7 +383,7 @@ func c12(c *Ctx) {
 		var hits []ssa.Instruction
 		for _, b := range f.Blocks {
 			for _, in := range b.Instrs {
-				if ret, ok := in.(*ssa.Return); ok && len(ret.Results) == 2 && strings.Contains(tr.OriginString(an.RetVal(ret, 0)), "genericFileSessionLoader.cached") {
+				if ret, ok := an.AsReturn(in); ok && len(ret.Results) == 2 && strings.Contains(tr.OriginString(an.RetVal(ret, 0)), "genericFileSessionLoader.cached") {
 					hits = append(hits, ret)
 				}
 			}
@@ -536,6 +536,20 @@ func c12(c *Ctx) {
 			}
 		}
 		c.storeSuccessMeansWritten("R12.W", f)
+		// write-aside-and-rename works only inside one file system: the file that is renamed into place has to be
+		// created in the directory of the session file, not in the system's temp directory
+		for _, cs := range an.Calls(f) {
+			if cs.Name != "io/ioutil.TempFile" && cs.Name != "os.CreateTemp" {
+				continue
+			}
+			dirArg := cs.Common.Args[0]
+			d := an.NewDeps(c.inRepo).Of(dirArg)
+			okDir := d.Has("field:session.genericFileSessionLoader.path")
+			if k, isK := dirArg.(*ssa.Const); isK && k.Value != nil && k.Value.ExactString() == `""` {
+				okDir = false
+			}
+			r.Check(okDir, "R12.W", "store:temp-file-beside-the-target", c.pos(cs.Pos()), "the temporary file that is renamed over the session file is created in a directory derived from the session path (rename does not cross file systems; \"\" means os.TempDir()); roots: "+strings.Join(an.SortedKeys(d.Roots), ", "))
+		}
 		switch verdict {
 		case "ok":
 			r.Hold("R12.W", "store:whole-file-write", c.pos(f.Pos()), "the session bytes are written with "+detail)
@@ -643,7 +657,7 @@ func (c *Ctx) storeSuccessMeansWritten(rule string, f *ssa.Function) {
 	}
 	nExit := 0
 	for _, b := range f.Blocks {
-		ret, ok := b.Instrs[len(b.Instrs)-1].(*ssa.Return)
+		ret, ok := an.AsReturn(b.Instrs[len(b.Instrs)-1])
 		if !ok || len(ret.Results) != 1 || an.NonNilError(an.RetVal(ret, 0), b) {
 			continue
 		}
